@@ -127,6 +127,12 @@ func (cr *ChunkReader) Read(p []byte) (int, error) {
 	if cr.checksumHash != nil {
 		cr.checksumHash.Write(p[:n])
 	}
+	if err == io.EOF {
+		// the stream may only end with the final 0-size chunk
+		// (parseAndRemoveChunkInfo reports io.EOF for it); an EOF
+		// of the body anywhere else is a truncated stream
+		return n, io.ErrUnexpectedEOF
+	}
 	return n, err
 }
 
@@ -337,16 +343,17 @@ func (cr *ChunkReader) parseChunkHeaderBytes(header []byte, l *int) (int64, stri
 
 	rdr := bufio.NewReader(bytes.NewReader(header))
 
-	// After the first chunk each chunk header should start
-	// with "\n\r\n"
-	if !cr.isFirstHeader && stashLen == 0 {
+	// After the first chunk each chunk header starts with "\r\n".
+	// header always holds the raw framing from its first byte (stashed
+	// part included), so the CRLF is parsed again on every attempt and
+	// nothing is shifted in place before the header is complete.
+	skip := 0
+	if !cr.isFirstHeader {
 		err := readAndSkip(rdr, '\r', '\n')
 		if err != nil {
 			return cr.handleRdrErr(err, header)
 		}
-
-		copy(header, header[2:])
-		*l = *l - 2
+		skip = 2
 	}
 
 	// read and parse the chunk size
@@ -355,7 +362,7 @@ func (cr *ChunkReader) parseChunkHeaderBytes(header []byte, l *int) (int64, stri
 		return cr.handleRdrErr(err, header)
 	}
 	chunkSize, err := strconv.ParseInt(chunkSizeStr, 16, 64)
-	if err != nil {
+	if err != nil || chunkSize < 0 {
 		return 0, "", 0, errInvalidChunkFormat
 	}
 
@@ -435,7 +442,8 @@ func (cr *ChunkReader) parseChunkHeaderBytes(header []byte, l *int) (int64, stri
 		return cr.handleRdrErr(err, header)
 	}
 
-	ind := bytes.Index(header, []byte{'\r', '\n'})
+	// end of the header line (behind the leading CRLF, if any)
+	ind := bytes.Index(header[skip:], []byte{'\r', '\n'}) + skip
 	cr.isFirstHeader = false
 
 	return chunkSize, sig, ind + len(chunkHdrDelim) - stashLen, nil
